@@ -140,6 +140,51 @@ impl Serialize for DTok {
     }
 }
 
+/// zero-sized element with a destructor (ledger by count): deserialises from a u64 it discards
+struct DZ(vkit::ZTok);
+impl<'de> Deserialize<'de> for DZ {
+    fn deserialize<D: Deserializer<'de>>(d: D) -> Result<DZ, D::Error> {
+        let _ = u64::deserialize(d)?;
+        Ok(DZ(<vkit::ZTok as vkit::Elem>::fresh()))
+    }
+}
+
+/// what the scripted grid needs from its element type
+trait DEl: for<'de> Deserialize<'de> + 'static {
+    const NAME: &'static str;
+    /// the value it was deserialised from, when the type keeps it
+    fn val(&self) -> Option<u64>;
+    /// an element made outside the deserialiser (contents of a pre-initialised place)
+    fn placeholder(i: usize) -> Self;
+}
+impl DEl for DTok {
+    const NAME: &'static str = "DTok";
+    fn val(&self) -> Option<u64> {
+        Some(self.v)
+    }
+    fn placeholder(i: usize) -> DTok {
+        DTok { t: Tok::new(), v: 7000 + i as u64 }
+    }
+}
+impl DEl for DZ {
+    const NAME: &'static str = "DZ(zero-sized,Drop)";
+    fn val(&self) -> Option<u64> {
+        None
+    }
+    fn placeholder(_: usize) -> DZ {
+        DZ(<vkit::ZTok as vkit::Elem>::fresh())
+    }
+}
+impl DEl for u16 {
+    const NAME: &'static str = "u16";
+    fn val(&self) -> Option<u64> {
+        Some(*self as u64)
+    }
+    fn placeholder(i: usize) -> u16 {
+        i as u16
+    }
+}
+
 // ------------------------------------------------------------------ scripted deserializer
 
 #[derive(Clone, Copy, Debug, PartialEq)]
@@ -149,6 +194,8 @@ enum Upfront {
     TooSmall, // N-1 (or 0 when N == 0 -> same as exact, skipped)
     TooLarge, // N+1
     Delivered, // the truth about what will be delivered
+    /// a fixed announcement, whatever N and the delivery are
+    Fixed(usize),
 }
 #[derive(Clone, Copy, Debug, PartialEq)]
 enum Running {
@@ -236,6 +283,7 @@ impl<'de> SeqAccess<'de> for ScriptSeq {
                 Upfront::TooSmall => Some(self.n.saturating_sub(1)),
                 Upfront::TooLarge => Some(self.n + 1),
                 Upfront::Delivered => Some(left),
+                Upfront::Fixed(h) => Some(h),
             };
         }
         match self.running {
@@ -411,11 +459,35 @@ fn ser_cases<N: ArrayLength>(st: &mut Stats) {
 
 fn script_cases<N: ArrayLength>(st: &mut Stats) {
     let n = N::USIZE;
-    for deliver in 0..=n + 2 {
-        for upfront in [Upfront::None, Upfront::Exact, Upfront::TooSmall, Upfront::TooLarge, Upfront::Delivered] {
+    let delivers: Vec<usize> = (0..=n + 2).collect();
+    let upfronts = [Upfront::None, Upfront::Exact, Upfront::TooSmall, Upfront::TooLarge, Upfront::Delivered];
+    script_grid::<DTok, N>(st, &delivers, &upfronts, true);
+    if n <= 5 {
+        script_grid::<DZ, N>(st, &delivers, &upfronts, true);
+    }
+}
+
+/// large N: the up-front announcement compared with N far above any cap a format might apply
+/// to its hints (serde's own `size_hint::cautious` clamps at 4096 elements)
+fn script_big<N: ArrayLength>(st: &mut Stats) {
+    let n = N::USIZE;
+    let delivers = [n - 1, n, n + 1];
+    let upfronts = [Upfront::None, Upfront::Exact, Upfront::TooSmall, Upfront::TooLarge, Upfront::Fixed(0), Upfront::Fixed(1), Upfront::Fixed(1024), Upfront::Fixed(4095),
+                    Upfront::Fixed(4096), Upfront::Fixed(4097), Upfront::Fixed(n / 2), Upfront::Fixed(n - 2), Upfront::Fixed(2 * n), Upfront::Fixed(usize::MAX)];
+    script_grid::<u16, N>(st, &delivers, &upfronts, false);
+}
+
+fn script_grid<D: DEl, N: ArrayLength>(st: &mut Stats, delivers: &[usize], upfronts: &[Upfront], all_errs: bool) {
+    let n = N::USIZE;
+    for &deliver in delivers {
+        for &upfront in upfronts {
             for running in [Running::None, Running::Truthful, Running::OneMore, Running::NothingLeftLie] {
                 let mut errs: Vec<Option<usize>> = vec![None];
-                errs.extend((0..deliver.min(n + 1)).map(Some));
+                if all_errs {
+                    errs.extend((0..deliver.min(n + 1)).map(Some));
+                } else {
+                    errs.extend([0, n / 2, n - 1].into_iter().filter(|k| *k < deliver).map(Some));
+                }
                 for err_at in errs {
                   for route in 0..3usize {
                     // route 0: Deserialize::deserialize (human-readable source); 1: the same from a
@@ -424,21 +496,21 @@ fn script_cases<N: ArrayLength>(st: &mut Stats) {
                     st.check_case(
                         "C17",
                         "scripted",
-                        "DTok",
-                        || format!("C17 scripted DTok N={n} deliver={deliver} upfront={upfront:?} running={running:?} err_at={err_at:?} route={rname}"),
+                        D::NAME,
+                        || format!("C17 scripted {} N={n} deliver={deliver} upfront={upfront:?} running={running:?} err_at={err_at:?} route={rname}", D::NAME),
                         deliver > 0,
                         || {
                             let log = Rc::new(RefCell::new(DeLog::default()));
                             let de = ScriptDe { human_readable: route != 1, n, deliver, upfront, running, err_at, log: log.clone() };
                             let r = if route == 2 {
                                 // a fully initialised place, as serde hands to deserialize_in_place
-                                let mut place: GA<DTok, N> = GA::<DTok, N>::generate(|i| DTok { t: Tok::new(), v: 7000 + i as u64 });
-                                match <GA<DTok, N> as Deserialize>::deserialize_in_place(de, &mut place) {
+                                let mut place: GA<D, N> = GA::<D, N>::generate(D::placeholder);
+                                match <GA<D, N> as Deserialize>::deserialize_in_place(de, &mut place) {
                                     Ok(()) => Ok(place),
                                     Err(e) => Err(e),
                                 }
                             } else {
-                                GA::<DTok, N>::deserialize(de)
+                                GA::<D, N>::deserialize(de)
                             };
                             let l = log.borrow().clone();
                             // what the up-front hint announced
@@ -448,6 +520,7 @@ fn script_cases<N: ArrayLength>(st: &mut Stats) {
                                 Upfront::TooSmall => Some(n.saturating_sub(1)),
                                 Upfront::TooLarge => Some(n + 1),
                                 Upfront::Delivered => Some(deliver),
+                                Upfront::Fixed(h) => Some(h),
                             };
                             let hint_ok = announced.map(|h| h == n).unwrap_or(true);
                             let err_hit = err_at.map(|k| k < n.min(deliver) || (k == n && deliver > n)).unwrap_or(false);
@@ -468,8 +541,10 @@ fn script_cases<N: ArrayLength>(st: &mut Stats) {
                                         return Err("BadElementAccepted: an element failed to parse but an array was returned".into());
                                     }
                                     for (i, e) in a.iter().enumerate() {
-                                        if e.v != 1000 + i as u64 {
-                                            return Err(format!("ContentMismatch: element {i} is {}", e.v));
+                                        if let Some(v) = e.val() {
+                                            if v != 1000 + i as u64 {
+                                                return Err(format!("ContentMismatch: element {i} is {v}"));
+                                            }
                                         }
                                     }
                                 }
@@ -514,6 +589,10 @@ fn main() {
         lens!(&mut st, args, script_cases, [0, 1, 2, 3, 4, 5, 6, 7, 8]);
         if args.thorough() {
             lens!(&mut st, args, script_cases, [16, 17, 33]);
+        }
+        if args.maxn >= 8192 {
+            script_big::<generic_array::typenum::Sum<generic_array::typenum::U4096, generic_array::typenum::U1>>(&mut st);
+            script_big::<generic_array::typenum::U8192>(&mut st);
         }
     }
     st.finish();
